@@ -1293,6 +1293,10 @@ static int fault_to_dkind(Fault f)
         default: return D_THROW;
     }
 }
+uint64_t faults_fired(Fault f)
+{
+    return g_fault_fired[fault_to_dkind(f)];
+}
 void enable_fault(Fault f, int permille)
 {
     g_fault_rate[fault_to_dkind(f)] = permille;
